@@ -139,13 +139,15 @@ let () = register "c18.project" (fun line ->
     let observe ?(force_agree = false) (s : pstate) =
       String.concat "," (List.map2 (fun (r : ref_state) (k, str) ->
         let loaded = uniq (List.map (rel_s t.root) (if r.rs_valid then r.rs_vstr else [])) in
+        let loaded = if loaded = [] then ["-"] else loaded in
         let items = open_list (k = KRequire) (k = KSuffix) str in
         let oo = open_outcomes s.ps_idx (fun f -> mem_bytes f s.ps_loaded) cur items in
-        let defs = uniq (List.map (fun (_, f) -> rel_s t.root f) oo) in
+        let defs = uniq (List.map (function Some (_, f) -> rel_s t.root f | None -> "-") oo) in
+        let hovs = uniq (List.map (function Some (it, _) -> hex_of_bytes it | None -> "-") oo) in
         let agree = if List.length loaded <= 1 && List.length defs <= 1 then (if loaded = defs then "{1}" else "{0}") else "{0|1}" in
         let agree = if force_agree && fa_guard s.ps_loaded s.ps_disk (k, str) then "{1}" else agree in
         bool_s r.rs_err ^ ":" ^ bool_s r.rs_valid ^ ":" ^ set_s loaded ^ ":"
-        ^ set_s defs ^ ":" ^ set_s (List.map (fun (it, _) -> hex_of_bytes it) oo) ^ ":" ^ agree)
+        ^ set_s defs ^ ":" ^ set_s hovs ^ ":" ^ agree)
         s.ps_refs refl) in
     let rec go s disk lua evl macc sacc stale skipped =
       let m = if s.ps_ambig then "AMBIG" else observe s in
